@@ -233,7 +233,7 @@ def gen_callbacks(rng: random.Random, P: Profile, scn: Scn, evs):
     if rng.random() < P.p_model_shape:
         scn.model_shape = rng.choice(["len0", "boolF", "lib", "eq"])
     if used and rng.random() < P.p_listener_kind:
-        scn.listener_kind = rng.choice(["eq", "hooks", "falsy"])
+        scn.listener_kind = rng.choice(["eq", "hooks", "falsy", "proxy", "inherit"])
     real = [c for c in scn.cbs if c.coro and not c.alias_of and c.id not in {x.alias_of for x in scn.cbs}]
     if len(real) >= 2:
         for c in real[1:]:
@@ -509,6 +509,10 @@ def late_listeners(rng: random.Random, s: Scn, p: float = 0.35):
                         c.wrap = ""
         if rng.random() < 0.25:
             ops.insert(rng.randint(pos + 1, len(ops)), ("add_listener", L))
+    if rng.random() < 0.2 and len(ops) > 1 and not s.is_async():
+        # an object that is a provider already — the model, the machine itself — attached as a listener as well
+        ops.insert(rng.randint(1, len(ops)), ("add_listener", rng.choice(["model", "machine"])))
+        moved = True
     if not moved:
         return
     # a few more events after the attachment, so that transitions that ran before run again
